@@ -50,7 +50,12 @@ func (d *Destination) Validate() error {
 	if d.KeysAndCert == nil {
 		return oops.Errorf("destination KeysAndCert is nil")
 	}
-	return d.KeysAndCert.Validate()
+	if err := d.KeysAndCert.Validate(); err != nil {
+		return err
+	}
+	// A Destination assembled by the caller (struct literal) has not passed the key-type
+	// policy that NewDestination and ReadDestination apply.
+	return validateDestinationKeyTypes(d.KeysAndCert)
 }
 
 // IsValid returns true if the Destination is properly initialized.
